@@ -74,6 +74,20 @@ def run(ctx, crate):
                         ctx.check(pb is None, rule, "match-err-arm", b.name, "%s:%d" % (b.file, t.get("line", 0)),
                                   "Err arm of an explicit match on io::Result has no panic edge",
                                   "Err arm of a match on io::Result reaches a panic edge at bb%s" % pb, cfg)
+                        # the Err arm of an explicit match is an error exit like the Break edge of `?`: it must be pure
+                        # when the function goes on to return that error (region reaches a return with an Err stored)
+                        if K.is_plain_io_result(b.locals[0]) and b.file not in K.TEST_DOUBLE_FILES:
+                            only_err = reg - b.reach([x for x in b.succ(sb) if x != err_t[0]])
+                            problems = []
+                            for bb in sorted(only_err):
+                                for s_ in b.stmts(bb):
+                                    if s_["k"] == "assign" and s_["lhs"]["l"] != 0 and any(x == "*" for x in s_["lhs"]["p"]):
+                                        problems.append("store through a reference: %s (L%d)" % (place_str(s_["lhs"], b), s_.get("line", 0)))
+                                    if s_["k"] == "assign" and any(isinstance(x, dict) and x.get("adt") in STATE_ADTS for x in s_["lhs"]["p"]):
+                                        problems.append("store to state field: %s" % place_str(s_["lhs"], b))
+                            ctx.check(not problems, "R-ERR-EXIT-PURE", "match-err-arm", b.name, "%s:%d" % (b.file, t.get("line", 0)),
+                                      "the Err arm of an explicit match on io::Result writes no state",
+                                      "Err arm of a match on io::Result is not pure: " + "; ".join(problems[:3]), cfg)
     ctx.floor(rule, n_results, 18, cfg, "io::Result-valued call results in library code")
 
     # ---- R-IO-REPORTED (a): inside a fn that itself returns io::Result, no io::Result is swallowed ------
